@@ -242,7 +242,10 @@ def open(path, *, storage_options={}, create_cache=False, use_cache=True, record
                 with self.lock:
                     return self.array[key]
             return self.array[key]''')]),
-    ("c19_no_lock", "C19", "quiet", "benign: lock removed, every load still opens its own handle",
+    ("c19_no_lock", "C19", "violation",
+     "lock removed: harmless on stores with one handle per open (it was a quiet control until "
+     "memory:// worlds were added) - but fsspec's memory filesystem hands out ONE shared file "
+     "object per path, and there the lock is what keeps same-image loads apart",
      [(XR, '''        with self.lock:
             return self.array[key]''', '''        return self.array[key]''')]),
     ("c19_module_handle_cache", "C19", "violation", "module-level handle cache keyed by url, no lock",
